@@ -187,7 +187,13 @@ class kMinPathErrorCycles(walkmodel.AbstractWalkModelDiGraph):
         utils.logger.debug(f"{__name__}: edges_to_ignore_internal set to {edges_to_ignore_internal}")
 
         self.edges_to_ignore = self.G.source_sink_edges.union(edges_to_ignore_internal)
-        self.edge_error_scaling = dict(error_scaling_internal)      # (a copy: the factors are read again after solve(); later edits of the caller's dict must not reach the model)
+        # (a copy: the factors are read again after solve(); later edits of the caller's dict must not reach the model. Factors of another
+        # real number type - numpy scalars, fractions - are stored as floats: they are multiplied into solver expressions)
+        try:
+            self.edge_error_scaling = {edge: (factor if type(factor) in (int, float) else float(factor)) for edge, factor in dict(error_scaling_internal).items()}
+        except (TypeError, ValueError):
+            utils.logger.error(f"{__name__}: Error scaling factors must be numbers between 0 and 1.")
+            raise ValueError("Error scaling factors must be numbers between 0 and 1.")
         # If the error scaling factor is 0, we ignore the edge
         self.edges_to_ignore |= {edge for edge, factor in self.edge_error_scaling.items() if factor == 0}
         
